@@ -158,6 +158,11 @@ def run(ctx):
     bl = umap.UMAP(n_neighbors=8, random_state=42, n_epochs=[10, 24]).fit(X0)
     for ops in [[("T", 1)], [("T", "train"), ("I",)], [("U", 3), ("T", 1), ("T", "train")]]:
         run_history(ctx, pending, bl, [0], ops, X_by_id, "exact n_epochs=[10, 24]", feats, ncomp)
+    # a model smaller than its n_neighbors, growing through updates (still not larger than n_neighbors, then larger)
+    T_by = {0: X0[:8].copy(), 1: X_by_id[1], 2: X_by_id[2], 3: X0[40:44].copy(), 4: X0[44:52].copy()}
+    bt = umap.UMAP(n_neighbors=15, random_state=42, n_epochs=12).fit(T_by[0])
+    for ops in [[("T", 1)], [("U", 3), ("T", 1), ("T", "train")], [("U", 3), ("I",), ("T", 2)], [("U", 3), ("U", 4), ("T", 1), ("T", "train")]]:
+        run_history(ctx, pending, bt, [0], ops, T_by, "tiny n=8 < n_neighbors=15", feats, ncomp)
     # forced NN-descent model
     Xa, _ = gen.dataset(rng, 150, feats, kind="clusters")
     Xa_by = {0: Xa, 1: (Xa[:7] + 0.05).astype(np.float32), 2: (Xa[20:25] - 0.05).astype(np.float32),
